@@ -355,6 +355,7 @@ join = Contract(
     loops={0: Loop(ghosts=[_JOIN_GHOST],
                    inv=lambda L: [cells(L.chunks) == L.J,
                                   If(L.k == 0, length(L.before) == 0, L.before == T.FmtS.chunks(L.self))])})
+join.single_pass_params = ("iterable",)
 
 
 # ---------------------------------------------------------------------------------------------
